@@ -36,7 +36,61 @@ theorem abs_exact (a : Dur) (ha : a.Canon) :
     ∃ r, Dur.abs a = .ok r ∧ r.Canon ∧ r.val = clampD (if a.val < 0 then -a.val else a.val) :=
   abs_spec a ha
 
+theorem clampD_unit (f : Int) (hf : f ∈ unitFactors) : clampD (1 * f) = f := by
+  rw [unitFactors_eq] at hf
+  simp only [List.mem_cons, List.not_mem_nil, or_false] at hf
+  rcases hf with h | h | h | h | h | h | h | h | h <;> subst h <;> decide
+
+/-- `n * unit` for each of the nine units and every i64: canonical, exactly the clamped product -/
+theorem unit_times_i64_exact (f q : Int) (hf : f ∈ unitFactors) (hq : fitsI64 q = true) :
+    (Dur.unitMulI64 f q).Canon ∧ (Dur.unitMulI64 f q).val = clampD (q * f) := unitMulI64_spec f q hf hq
+
+/-- `a ± Unit` is `a ± (1 * unit)`: exactly the clamped sum with the unit's length -/
+theorem add_unit_exact (a : Dur) (f : Int) (ha : a.Canon) (hf : f ∈ unitFactors) :
+    (Dur.add a (Dur.unitMulI64 f 1)).Canon ∧ (Dur.add a (Dur.unitMulI64 f 1)).val = clampD (a.val + f) := by
+  have hu := unitMulI64_spec f 1 hf (by decide)
+  have := add_spec a _ ha hu.1
+  refine ⟨this.1, ?_⟩
+  rw [this.2, hu.2, clampD_unit f hf]
+
+theorem sub_unit_exact (a : Dur) (f : Int) (ha : a.Canon) (hf : f ∈ unitFactors) :
+    (Dur.sub a (Dur.unitMulI64 f 1)).Canon ∧ (Dur.sub a (Dur.unitMulI64 f 1)).val = clampD (a.val - f) := by
+  have hu := unitMulI64_spec f 1 hf (by decide)
+  have := sub_spec a _ ha hu.1
+  refine ⟨this.1, ?_⟩
+  rw [this.2, hu.2, clampD_unit f hf]
+
+/-- `a * q`, `q * a` for every i64 `q`: canonical, exactly the clamped product — PARTIAL: outside the
+    recorded defect class D1 (an operand with centuries ≤ -2 and a non-zero nanosecond part reaching
+    `total_nanoseconds`).  The full statement (without `h1 h2`) is false of the code, see
+    `mul_counterexample`. -/
+theorem mulI64_exact_partial (a : Dur) (q : Int) (ha : a.Canon) (hq : fitsI64 q = true)
+    (h1 : Dur.d1class a = false) (h2 : Dur.d1class (Dur.unitMulI64 1 q) = false) :
+    (Dur.mulI64 a q).Canon ∧ (Dur.mulI64 a q).val = clampD (a.val * q) := mulI64_spec a q ha hq h1 h2
+
+/-- `a / q` for every non-zero i64 `q`: never panics, truncates toward zero — PARTIAL on D1 as above. -/
+theorem divI64_exact_partial (a : Dur) (q : Int) (ha : a.Canon) (hq : fitsI64 q = true) (hq0 : q ≠ 0)
+    (h1 : Dur.d1class a = false) (h2 : Dur.d1class (Dur.unitMulI64 1 q) = false) :
+    ∃ r, Dur.divI64 a q = .ok r ∧ r.Canon ∧ r.val = clampD (Int.tdiv a.val q) :=
+  divI64_spec a q ha hq hq0 h1 h2
+
+/-- whatever the operands (D1 class included), `*` and `/` never panic and return canonical values -/
+theorem mulI64_canon (a : Dur) (q : Int) : (Dur.mulI64 a q).Canon := (fromTotal_spec _).1
+
+/-- the D1 hypothesis cannot be dropped: the code (and its faithful model) get (-2 c + 1 ns) * 1 wrong -/
+theorem mul_counterexample :
+    ¬ ((Dur.mulI64 ⟨-2, 1⟩ 1).val = clampD ((Dur.mk (-2) 1).val * 1)) := by decide
+
+/-- the D1 class is exactly "more than a century below zero, not on a century boundary" -/
+theorem d1class_iff (a : Dur) (ha : a.Canon) :
+    Dur.d1class a = true ↔ (a.val < -NPCs ∧ a.val % NPCs ≠ 0) := by
+  obtain ⟨a1, a2, a3, a4⟩ := ha
+  unfold Dur.d1class Dur.val valP
+  simp only [NPC_eq, NPCs_eq, decide_eq_true_eq] at *
+  omega
+
 -- non-vacuity: the hypotheses are met by non-trivial values on both sides of zero and at the bounds
+example : Dur.d1class ⟨-1, 5⟩ = false ∧ Dur.d1class ⟨-7, 0⟩ = false ∧ Dur.d1class (Dur.unitMulI64 1 (-5)) = false := by decide
 example : (Dur.mk (-3) 17).Canon ∧ (Dur.mk 32767 NPC).Canon ∧ (Dur.mk (-32768) 0).Canon := by
   unfold Dur.Canon; simp only [NPC_eq]; decide
 
